@@ -13,8 +13,10 @@
 (* stop; no demand by C13).                                                 *)
 (***************************************************************************)
 EXTENDS Gen_MsgBase, Json, TLC
-CONSTANTS CODES, PAYLOADS, FPOS, POSITIONS, LES
+CONSTANTS CODES, PAYLOADS, FPOS, FPOS1, POSITIONS, LES   \* FPOS1: field positions tried with payload 1 only
 
+\* normal messages of every type with every known field and flag
+NormC(ty, le) == MkMsg([Hdr(ty, 7, Settable(ty), 3) EXCEPT !.serial = Ser(2)], B_dict, le)
 Place(odd, pos, le) == InsertAt(<<NormA(le), NormB(le)>>, pos, odd)
 Case(kind, what, odd, pos, le) == [kind |-> kind, what |-> what, odd |-> pos, stream |-> Place(odd, pos, le)]
 
@@ -22,10 +24,13 @@ UnknownFlagBytes == {8, 16, 32, 64, 128, 248, 255, 10}
 Cases ==
   UNION {
      {Case("field", [code |-> c, payload |-> p, at |-> fp], OddField(c, p, fp, le), pos, le) : c \in CODES, p \in PAYLOADS, fp \in FPOS}
+     \cup {Case("field", [code |-> c, payload |-> 1, at |-> fp], OddField(c, 1, fp, le), pos, le) : c \in CODES, fp \in FPOS1}
      \cup {Case("flag", [flags |-> fl], OddFlag(fl, le), pos, le) : fl \in UnknownFlagBytes}
      \cup {Case("type", [type |-> ty], OddType(ty, le), pos, le) : ty \in 5..255}
      \cup {Case("type0", [type |-> 0], OddType(0, le), pos, le),
            Case("normal", [flags |-> 2], OddFlag(2, le), pos, le),
+           Case("normal", [flags |-> 7], NormC(MT_RETURN, le), pos, le), Case("normal", [flags |-> 7], NormC(MT_ERROR, le), pos, le),
+           Case("normal", [flags |-> 7], NormC(MT_SIGNAL, le), pos, le), Case("normal", [flags |-> 7], NormC(MT_CALL, le), pos, le),
            Case("invalid", [version |-> 2], Invalid(le), pos, le)}
     : pos \in POSITIONS, le \in LES}
 
